@@ -50,6 +50,9 @@ pub struct CaseB {
   pub tab_end_at: Option<u64>,
   /// route bytes through the real reader / tablet reader / writer on pipes
   pub hybrid: bool,
+  /// hybrid only: the OS-level write under the k-th send of the real writer fails
+  /// (kind 0 = EAGAIN, queue full; 1 = EPIPE, consumer gone; 2 = EBADF)
+  pub write_fault: Option<(usize, u8)>,
 }
 
 impl CaseB {
@@ -59,7 +62,7 @@ impl CaseB {
       "tab": self.tab.iter().map(|(t, on)| json!([t, on])).collect::<Vec<_>>(),
       "has_tablet": self.has_tablet,
       "cfg": {"p_eintr": self.cfg.p_eintr, "p_spurious_timeout": self.cfg.p_spurious_timeout, "p_spurious_ready": self.cfg.p_spurious_ready, "p_latency": self.cfg.p_latency, "p_oversleep": self.cfg.p_oversleep, "max_interrupts": self.cfg.max_interrupts},
-      "tape": self.tape, "fail_at": self.fail_at, "extra_ticks": self.extra_ticks, "kbd_end_at": self.kbd_end_at, "tab_end_at": self.tab_end_at, "hybrid": self.hybrid})
+      "tape": self.tape, "fail_at": self.fail_at, "extra_ticks": self.extra_ticks, "kbd_end_at": self.kbd_end_at, "tab_end_at": self.tab_end_at, "hybrid": self.hybrid, "write_fault": self.write_fault.map(|(k, kind)| vec![k as u64, kind as u64])})
   }
   pub fn from_json(v: &Value) -> Result<CaseB, String> {
     let layout = layout_from_json(v.get("layout").ok_or("case: no layout")?)?;
@@ -78,7 +81,8 @@ impl CaseB {
       fail_at: v.get("fail_at").and_then(|x| x.as_u64()).map(|x| x as usize),
       extra_ticks: v.get("extra_ticks").and_then(|x| x.as_u64()).unwrap_or(0) as u32,
       kbd_end_at: v.get("kbd_end_at").and_then(|x| x.as_u64()), tab_end_at: v.get("tab_end_at").and_then(|x| x.as_u64()),
-      hybrid: v.get("hybrid").and_then(|x| x.as_bool()).unwrap_or(false) })
+      hybrid: v.get("hybrid").and_then(|x| x.as_bool()).unwrap_or(false),
+      write_fault: v.get("write_fault").and_then(|x| x.as_array()).and_then(|a| if a.len() == 2 { Some((a[0].as_u64().unwrap_or(0) as usize, a[1].as_u64().unwrap_or(0) as u8)) } else { None }) })
   }
   pub fn hash(&self) -> u64 {
     let mut h = H::new(); hash_layout(&mut h, &self.layout);
@@ -86,7 +90,7 @@ impl CaseB {
     h.u(0xEE); for (t, on) in &self.tab { h.u(*t); h.u(*on as u64); }
     h.u(0xEF); for v in &self.tape { h.u(*v as u64); }
     h.u(self.fail_at.map(|x| x as u64 + 1).unwrap_or(0)); h.u(self.extra_ticks as u64);
-    h.u(self.kbd_end_at.map(|x| x + 1).unwrap_or(0)); h.u(self.tab_end_at.map(|x| x + 1).unwrap_or(0)); h.u(self.hybrid as u64); h.u(self.has_tablet as u64);
+    h.u(self.kbd_end_at.map(|x| x + 1).unwrap_or(0)); h.u(self.tab_end_at.map(|x| x + 1).unwrap_or(0)); h.u(self.hybrid as u64); h.u(self.has_tablet as u64); h.u(self.write_fault.map(|(k, kind)| (k as u64) * 4 + kind as u64 + 1).unwrap_or(0));
     h.fin()
   }
 }
@@ -135,7 +139,8 @@ impl Tape {
 pub struct SimStats {
   pub eintr: u64, pub spurious_timeout: u64, pub spurious_ready: u64, pub latency: u64, pub oversleep: u64, pub io_error: u64,
   pub order_flipped: u64, pub both_devices_ready: u64, pub kbd_unplugged: u64, pub tab_unplugged: u64, pub arrival_during_drain: u64,
-  pub backoff_sleeps: u64, pub multi_event_wakeups: u64, pub timer_ticks: u64, pub trace_cap_hit: u64,
+  pub backoff_sleeps: u64, pub multi_event_wakeups: u64, pub max_events_one_wakeup: u64, pub timer_ticks: u64, pub trace_cap_hit: u64,
+  pub os_write_fault: [u64; 3],
 }
 
 pub trait ByteLayer {
@@ -146,6 +151,10 @@ pub trait ByteLayer {
   fn read_tab(&mut self) -> Result<Option<bool>, String>;
   /// write through the real writer, drain and decode what arrived on the other end
   fn send(&mut self, evs: &Vec<Event>) -> Result<Vec<Event>, String>;
+  /// make the next OS-level write of the real writer fail (0 EAGAIN, 1 EPIPE, 2 EBADF)
+  fn sabotage_writer(&mut self, kind: u8);
+  /// call the real writer and hand back its own verdict, nothing else
+  fn raw_send(&mut self, evs: &Vec<Event>) -> Result<(), String>;
 }
 
 pub struct Sim<'a> {
@@ -168,6 +177,9 @@ pub struct Sim<'a> {
   extra_ticks: u32,
   interrupts: u32,
   in_drain: bool,
+  write_fault: Option<(usize, u8)>,
+  sends_done: usize,
+  hw_failed: bool,
   pub stats: SimStats,
   pub bytes: Option<&'a mut dyn ByteLayer>,
   pub byte_error: Option<String>,
@@ -179,7 +191,7 @@ impl<'a> Sim<'a> {
     reset_sim_slept_us();
     Sim { tape, cfg: case.cfg.clone(), kbd: case.kbd.iter().cloned().collect(), tab: if case.has_tablet { case.tab.iter().cloned().collect() } else { VecDeque::new() }, has_tablet: case.has_tablet,
       kbd_ready: VecDeque::new(), tab_ready: VecDeque::new(), kbd_notify: false, tab_notify: false, trace: vec![], fail_at: case.fail_at, calls: 0,
-      kbd_ended: false, tab_ended: false, kbd_end_at: case.kbd_end_at, tab_end_at: if case.has_tablet { case.tab_end_at } else { None }, extra_ticks: case.extra_ticks, interrupts: 0, in_drain: false,
+      kbd_ended: false, tab_ended: false, kbd_end_at: case.kbd_end_at, tab_end_at: if case.has_tablet { case.tab_end_at } else { None }, extra_ticks: case.extra_ticks, interrupts: 0, in_drain: false, write_fault: if case.hybrid { case.write_fault } else { None }, sends_done: 0, hw_failed: false,
       stats: SimStats::default(), bytes, byte_error: None }
   }
   fn now(&self) -> u64 { sim_now_us() }
@@ -314,6 +326,7 @@ impl<'a> VerifDriver for Sim<'a> {
     if self.tab_notify { ds.push(VDevice::Tablet); }
     if ds.len() == 2 { self.stats.both_devices_ready += 1; if self.tape.below(2) == 1 { ds.reverse(); self.stats.order_flipped += 1; } }
     if self.kbd_ready.len() + self.tab_ready.len() >= 2 { self.stats.multi_event_wakeups += 1; }
+    if self.kbd_ready.len() + self.tab_ready.len() >= 16 { self.stats.max_events_one_wakeup += 1; }
     self.kbd_notify = false; self.tab_notify = false;
     self.in_drain = true;
     self.trace.push(Item::Poll { t_in, timeout: to_us, res: PollRes::Devices(ds.clone()), t_out: self.now() });
@@ -374,6 +387,29 @@ impl<'a> VerifDriver for Sim<'a> {
   fn send(&mut self, evs: &Vec<Event>) -> Result<(), String> {
     self.maybe_fail("send")?;
     self.latency();
+    let k = self.sends_done;
+    self.sends_done += 1;
+    if self.hw_failed {
+      // the virtual keyboard's fd is already broken; whatever the loop still writes is recorded
+      self.trace.push(Item::Send { evs: evs.clone(), t_out: self.now() });
+      return Ok(());
+    }
+    if let (Some((at, kind)), true) = (self.write_fault, self.bytes.is_some()) {
+      if at == k {
+        // the write() underneath the real DevInputWriter fails; what RealDriver::send does with the
+        // writer's verdict is mirrored here: Err(e) => Err("write() to synthetic keyboard failed with e")
+        let b = self.bytes.as_mut().unwrap();
+        b.sabotage_writer(kind);
+        self.hw_failed = true;
+        self.stats.os_write_fault[(kind % 3) as usize] += 1;
+        self.stats.io_error += 1;
+        self.trace.push(Item::Fail { what: "send (OS-level write failure under the real writer)" });
+        return match b.raw_send(evs) {
+          Ok(()) => Ok(()), // the writer reported success although nothing reached the device
+          Err(e) => Err(format!("{}: write() to synthetic keyboard failed with {}", INJECTED, e)),
+        };
+      }
+    }
     let seen = match self.bytes.as_mut() {
       None => evs.clone(),
       Some(b) => match b.send(evs) { Ok(d) => d, Err(e) => { if self.byte_error.is_none() { self.byte_error = Some(e); } evs.clone() } }
@@ -426,6 +462,7 @@ pub fn check_trace(l: &Layout, trace: &[Item], result: &Result<(), String>, en: 
   let mut prev_interrupt_or_spurious = false;
   let mut last_poll_timed_out = false;
   let mut events_this_wakeup = 0u32;
+  let mut tablet_events = 0u32;
   let mut sh = H::new();
   let mut first: Option<Violation> = None;
   macro_rules! report { ($label:expr, $at:expr, $detail:expr) => {{
@@ -455,7 +492,10 @@ pub fn check_trace(l: &Layout, trace: &[Item], result: &Result<(), String>, en: 
         // writing an empty batch
         if kind == Kind::Chord && exp.is_empty() { continue; }
         match kind {
-          Kind::Step => report!("C10-missing-send", i, format!("the mapper's output {} was not written before {}", evs_str(&exp), item_str(it))),
+          Kind::Step => {
+            report!("C10-missing-send", i, format!("the mapper's output {} was not written before {}", evs_str(&exp), item_str(it)));
+            if tablet_events > 0 { report!("C12-not-fresh", i, format!("after a tablet-mode change a freshly started mapper answers {}, the loop wrote nothing", evs_str(&exp))); }
+          }
           Kind::Chord => report!("C11-missing-chord", i, format!("the timer fired but no repeat chord {} was written before {}", evs_str(&exp), item_str(it))),
           Kind::Tablet => report!("C12-missing-release", i, format!("tablet-mode change but the held keys were not released ({}) before {}", evs_str(&exp), item_str(it))),
         }
@@ -534,7 +574,12 @@ pub fn check_trace(l: &Layout, trace: &[Item], result: &Result<(), String>, en: 
             if *on && (!held.is_empty() || rep.is_some()) { obs.nt_c12 = true; if !held.is_empty() { obs.tablet_on_while_held += 1; } if rep.is_some() { obs.tablet_on_while_timer += 1; } }
             tablet = *on;
             rep = None;
-            let evs = mapper.release_all();
+            tablet_events += 1;
+            // owed: one batch releasing exactly the keys held on the virtual keyboard (the statement
+            // does not fix the order); afterwards "mapping resumes as from a fresh start", so the
+            // model goes on with a brand-new mapper instead of trusting release_all's reset
+            let evs: Vec<Event> = sorted(&held).iter().map(|k| Released(*k)).collect();
+            mapper = Mapper::for_layout(l);
             if !evs.is_empty() { pending.push_back((evs, Kind::Tablet)); }
           }
         }
@@ -549,10 +594,12 @@ pub fn check_trace(l: &Layout, trace: &[Item], result: &Result<(), String>, en: 
             if tablet { report!("C12-send-in-tablet", i, format!("wrote {} while in tablet mode", evs_str(evs))); }
             else if last_poll_timed_out { report!("C11-unexpected-chord", i, format!("wrote {} after a time-out although no repeat chord is due", evs_str(evs))); }
             else { report!("C10-unexpected-send", i, format!("wrote {} although the mapper produced nothing to write", evs_str(evs))); }
+            if !tablet && tablet_events > 0 { report!("C12-not-fresh", i, format!("after a tablet-mode change the loop wrote {} where a freshly started loop writes nothing", evs_str(evs))); }
             Kind::Step
           }
           Some((exp, kind)) => {
-            if exp != *evs {
+            let same = if kind == Kind::Tablet { evs.len() == exp.len() && evs.iter().all(|e| matches!(e, Released(_))) && sorted(&evs.iter().map(ev_key).collect::<Vec<_>>()) == sorted(&exp.iter().map(ev_key).collect::<Vec<_>>()) } else { exp == *evs };
+            if !same {
               match kind {
                 Kind::Chord => {
                   // cause: the loop pressed the full chord although some of its keys are held
@@ -561,7 +608,10 @@ pub fn check_trace(l: &Layout, trace: &[Item], result: &Result<(), String>, en: 
                   if en.on("C11") { if first.is_none() { first = Some(Violation::new("C11-chord", i, format!("repeat chord: expected {} (repeat keys not already held, pressed in listed order, released in reverse), got {} with {} held", evs_str(&exp), evs_str(evs), keys_str(&held))).with_cause(cause)); } } else { obs.other_property_disagreements += 1; }
                 }
                 Kind::Tablet => report!("C12-release", i, format!("tablet-mode change: expected release batch {}, got {} (held {})", evs_str(&exp), evs_str(evs), keys_str(&held))),
-                Kind::Step => report!("C10-payload", i, format!("expected the mapper's output {}, the loop wrote {}", evs_str(&exp), evs_str(evs))),
+                Kind::Step => {
+                  report!("C10-payload", i, format!("expected the mapper's output {}, the loop wrote {}", evs_str(&exp), evs_str(evs)));
+                  if tablet_events > 0 { report!("C12-not-fresh", i, format!("after a tablet-mode change a freshly started mapper answers {}, the loop wrote {}", evs_str(&exp), evs_str(evs))); }
+                }
               }
             }
             kind
